@@ -6,13 +6,6 @@ Require Import Hdl21.Base.PyInt Hdl21.Base.Design Hdl21.Spec.Nets Hdl21.Model.C0
 Require Hdl21.Spec.BundleSpec Hdl21.Model.BundleFlat Hdl21.Proofs.BundleProofs Hdl21Gen.C10Tables.
 Open Scope Z_scope.
 
-Lemma NoDup_app_intro {A} (a b : list A) : NoDup a -> NoDup b -> (forall x, In x a -> In x b -> False) -> NoDup (a ++ b).
-Proof.
-  induction a as [|x a IH]; intros Ha Hb H; cbn [app]; [exact Hb|]. inversion Ha; subst. constructor.
-  - intros Hin. apply in_app_or in Hin. destruct Hin as [Hin|Hin]; [contradiction|]. apply (H x); [left; reflexivity|exact Hin].
-  - apply IH; try assumption. intros y Hy. apply H. right. exact Hy.
-Qed.
-
 Lemma maxlen_nonneg : 0 <= maxlen.
 Proof. vm_compute. discriminate. Qed.
 
